@@ -41,7 +41,7 @@ PROPS = {
                           "assignment of the constants) + replay of the TLC states on the real AbstractSmoother.__call__ and "
                           "EnergyResult.dataSmooth (real and complex data) + TLC validation of recorded smoothing results",
                 text="TLC checks in exact rationals that the loop of dataSmooth yields the composition of all axis smoothers, independent of "
-                     "the order, identity without smoothers, still true after add() and after set_smoother(), and that each smoother is "
+                     "the order, identity without smoothers, still true after add() (also of the void result: nothing changes) and after set_smoother(), and that each smoother is "
                      "linear, constant preserving and acts along its axis only; every state of the axis model and every idle state of the "
                      "dataSmooth model whose last event is a read is executed on the real classes (integer-kernel subclass of "
                      "AbstractSmoother, real EnergyResult) and compared to 1e-9; random real results (built directly or through +, -, *, /, "
@@ -228,6 +228,7 @@ def _check(rep, found, runs, tier):
                "to ~1e-15, compared with 1e-9")
     RA.wb()
     from wannierberri.smoother import FermiDiracSmoother, GaussianSmoother, get_smoother
+    VoidResult = RA.wb()[3]
 
     # is the private protocol through which the integer kernels are injected still there?
     exact = True
@@ -288,7 +289,7 @@ def _check(rep, found, runs, tier):
     cfg = scfg(shapes="ShapesA", ranks=(0, 1), kernels="KernelsQ", maxmut=2) if thorough else scfg(shapes="ShapesQ", kernels="KernelsQ", maxmut=1)
     st = ftable.enumerate_states("MC_ResultAlgSmooth.tla", cfg, runs.name("c17_smooth"), workers=workers, timeout=TLC_TIMEOUT)
     ftable.spec_violation(rep, st, "c17_smooth")
-    tlc.check_not_vacuous(st, ["ReadCached", "ReadStart", "LoopStep", "LoopEnd", "AddInPlaceData", "SetSmoother"], "c17_smooth")
+    tlc.check_not_vacuous(st, ["ReadCached", "ReadStart", "LoopStep", "LoopEnd", "AddInPlaceData", "SetSmoother", "AddVoidInPlace"], "c17_smooth")
     rep.add_tlc("c17_smooth", st)
     states = RA.fast_parse_dump(st["dump_path"])
     if len(states) != st["distinct"]:
@@ -310,7 +311,8 @@ def _check(rep, found, runs, tier):
         has_set = "set" in log
         cls = ("two_axes" if sum(1 for k in smo0 if len(k)) >= 2 else "one_axis" if any(len(k) for k in smo0) else "void") + \
               ("+add_after_read" if "add" in log and "read" in log[:log.index("add")] else "+add" if "add" in log else "") + \
-              ("+set_after_read" if has_set and "read" in log[:log.index("set")] else "+set" if has_set else "")
+              ("+set_after_read" if has_set and "read" in log[:log.index("set")] else "+set" if has_set else "") + \
+              ("+addvoid_after_read" if "addvoid" in log and "read" in log[:log.index("addvoid")] else "+addvoid" if "addvoid" in log else "")
         classes[cls] = classes.get(cls, 0) + 1
         if not exact:
             continue
@@ -319,7 +321,7 @@ def _check(rep, found, runs, tier):
             det = dict(energy_shape=shape, rank=rank, smoothers=smo0, smoothers_set=smo_now if has_set else None, data=data0,
                        added=list(s["b"]) if nadd else None, sequence=log, data_factor=str(factor),
                        how="EnergyResult(Energies=[arange(n)..], data * data_factor, smoothers=[integer-kernel AbstractSmoother subclass per axis]); "
-                           "'read' = .dataSmooth, 'add' = .add(other), 'set' = .set_smoother(smoothers_set)")
+                           "'read' = .dataSmooth, 'add' = .add(other), 'addvoid' = .add(VoidResult()), 'set' = .set_smoother(smoothers_set)")
 
             def run_log():
                 dt = float if factor == 1.0 else complex
@@ -331,6 +333,8 @@ def _check(rep, found, runs, tier):
                         reads.append(np.array(r.dataSmooth, copy=True))
                     elif op == "add":
                         r.add(other)
+                    elif op == "addvoid":
+                        r.add(VoidResult())
                     else:
                         r.set_smoother([RA.int_kernel_smoother(k, n) for k, n in zip(smo_now, shape)])
                 return reads
@@ -349,7 +353,8 @@ def _check(rep, found, runs, tier):
                 found.add("EnergyResult.dataSmooth:stale_after_" + ("add" if log[last_mut] == "add" else "set_smoother"), det)
             else:
                 found.add("EnergyResult.dataSmooth:" + classify_smooth(np.asarray(got) / factor, shape, rank, s["data"], smo_now), det)
-    need = ("two_axes", "one_axis", "void", "two_axes+add_after_read", "one_axis+add", "two_axes+set_after_read", "one_axis+set", "void+set_after_read") + \
+    need = ("two_axes", "one_axis", "void", "two_axes+add_after_read", "one_axis+add", "two_axes+set_after_read", "one_axis+set", "void+set_after_read",
+            "two_axes+addvoid_after_read", "one_axis+addvoid") + \
            (("two_axes+add_after_read+set_after_read", "one_axis+add+set") if thorough else ())
     for n_ in need:
         if not classes.get(n_):
